@@ -158,6 +158,9 @@ def run(ctx, R, tier):
     remove_rule(F, R)
     # a pause / resume command the track reads reaches its state machine whatever state the track is in
     c03.commands_reach_manager(F, R, rule='B.C12.cmd-applied', owners=c03.TRACK_OWNERS, floor=2)
+    # 'resuming ... at a start time': the track handles hand the start time and the tween on as they were given
+    from .c07 import payload_verbatim
+    payload_verbatim(F, R, rule='B.C12.payload', fn_filter=lambda q: q.startswith('track::') and 'handle' in q, floor=8)
     # 'resuming, immediately or at a start time': the track's fades and start delay advance by the time its slice covers
     from .c06 import ungated
     ungated(F, R, rule='B.C12.ungated', fn_filter=lambda q: q.startswith('track::'))
